@@ -53,6 +53,13 @@ mono! {
     "(vec (opt u8))" => Vec<Option<u8>>,
     "(vec (tup u8))" => Vec<(u8,)>,
     "(vec u16)" => Vec<u16>,
+    "(vec (arr 0 u8))" => Vec<[u8; 0]>,
+    "(ll (arr 0 u8))" => LinkedList<[u8; 0]>,
+    "(vec i64)" => Vec<i64>,
+    "(vec u32)" => Vec<u32>,
+    "(vec i128)" => Vec<i128>,
+    "(ll i64)" => LinkedList<i64>,
+    "(arr 3 i64)" => [i64; 3],
     "(ll u8)" => LinkedList<u8>,
     "(ll i8)" => LinkedList<i8>,
     "(box (arr 4 u8))" => Box<[u8; 4]>,
@@ -105,4 +112,6 @@ slices! {
     "(slice (tup u8))" => (u8,),
     "(slice unit)" => (),
     "(slice str)" => String,
+    "(slice (arr 0 u8))" => [u8; 0],
+    "(slice i64)" => i64,
 }
